@@ -5,7 +5,7 @@ import ast
 from typing import Dict, List, Optional, Set, Tuple
 
 from ..core import AnalysisError, CheckResult, ClassInfo, Finding, ModuleInfo, Repo, func_params, norm, walk_no_nested
-from .c11 import INIT_METHODS, MUTATORS, STORE_EXCEPTIONS, _derived_dicts, _store_target, attr_aliases, param_attr_aliases
+from .c11 import INIT_METHODS, MUTATORS, STORE_EXCEPTIONS, _derived_dicts, dict_subclass_instance, _store_target, attr_aliases, param_attr_aliases
 
 LEVEL = "other"
 EXHAUSTIVE = True
@@ -44,6 +44,8 @@ def run(repo: Repo, tier: str, res: CheckResult, seed: int = 0) -> None:
     lock_bodies(repo, res)
     per_request_objects(repo, res)
     handed_over_containers(repo, res)
+    shared_tables_are_builtin_dicts(repo, res)
+    callables_do_not_consume_their_own_state(repo, res)
     from .c20 import stateful_closures
     stateful_closures(repo, res, "C12", "RACE.runtime-closure-shares-state",
                       "every thread that uses the retort runs this one closure: the container is read and modified concurrently without a lock, and a re-entrant call (recursive types) clobbers the state of the outer one")
@@ -541,3 +543,92 @@ def handed_over_containers(repo: Repo, res: CheckResult) -> None:
                             "not callable). Only the call cache, whose key contains the ingredients of the cached closure, is "
                             "confirmed safe", getattr(node, "lineno", 0)))
     res.count("CONFINE.handed-over-containers", n, 1)
+
+
+def shared_tables_are_builtin_dicts(repo: Repo, res: CheckResult) -> None:
+    """The lock-free caches rest on two facts about the BUILTIN dict: `d[k] = v` is one atomic step, and storing a key a second
+    time is harmless (two threads that both miss both compute and both publish; the last writer wins). A dict subclass with a
+    `__setitem__` written in Python has neither: its body runs interleaved with other threads, and one that checks for the key
+    (refusing or merging a second insert) turns the benign double computation into an error raised out of load()."""
+    n = 0
+    for ci in repo.all_classes():
+        if _lifetime(repo, ci) is None:
+            continue
+        for c in repo.mro(ci):
+            for mname in ("_calculate_derived", "__init__"):
+                fn = c.methods.get(mname)
+                if fn is None or c is not ci and mname == "__init__":
+                    continue
+                for node in ast.walk(fn):
+                    if not (isinstance(node, (ast.Assign, ast.AnnAssign)) and node.value is not None):
+                        continue
+                    targets = node.targets if isinstance(node, ast.Assign) else [node.target]
+                    for t in targets:
+                        if not (isinstance(t, ast.Attribute) and norm(t.value) == "self"):
+                            continue
+                        if isinstance(node.value, (ast.Dict, ast.List, ast.Set)) or dict_subclass_instance(repo, c.module, node.value):
+                            n += 1
+                            res.evaluated(f"shared-table:{ci.name}.{t.attr}", True)
+                        k = dict_subclass_instance(repo, c.module, node.value)
+                        if k is None:
+                            continue
+                        setter = next((b.methods["__setitem__"] for b in repo.mro(k) if "__setitem__" in b.methods), None)
+                        if setter is None:
+                            continue
+                        raises = any(isinstance(x, ast.Raise) for x in ast.walk(setter))
+                        res.add(Finding("C12", "RACE.shared-table-with-python-setitem", c.module.rel, f"{c.name}.{mname}", norm(node)[:100],
+                                        f"`{norm(node)[:80]}`: the retort-wide table `{t.attr}` is a {k.name}, whose __setitem__ is Python code"
+                                        + (" that raises when a key is stored a second time" if raises else "")
+                                        + ": the caches are filled without a lock by check-then-insert, two threads that race on the "
+                                        "first request both miss, both compute and both store -- with a builtin dict the second store is "
+                                        "an atomic overwrite, here it " + ("raises out of load()" if raises else "runs interleaved with the other thread"),
+                                        node.lineno))
+    res.count("SHARED.tables", n, 3)
+
+
+def callables_do_not_consume_their_own_state(repo: Repo, res: CheckResult) -> None:
+    """Objects that are handed out as loaders / dumpers / coercers are cached per retort and called by every thread. A callable
+    object whose call path stores an attribute of `self` that the same path also reads (compile-on-first-call, `self._maker()`
+    ... `self._maker = None`) performs an unsynchronised state transition at CALL time: the second thread reads the attribute
+    after the first one has consumed it. (Binding in a separate method before the object is published -- FuncWrapper.set_func --
+    is the two-phase rule above.)"""
+    n = 0
+    for ci in repo.all_classes():
+        if not ci.module.rel.startswith("adaptix/_internal"):
+            continue
+        slots = {norm(e).strip("'\"") for a in ci.node.body if isinstance(a, ast.Assign) and norm(a.targets[0]) == "__slots__"
+                 for e in (a.value.elts if isinstance(a.value, (ast.Tuple, ast.List)) else [a.value])}
+        call_path = set()
+        if "__call__" in ci.methods:
+            call_path.add("__call__")
+        for fn in ci.methods.values():
+            for a in ast.walk(fn):
+                if isinstance(a, ast.Assign) and any(norm(t) == "self.__call__" for t in a.targets) \
+                        and isinstance(a.value, ast.Attribute) and norm(a.value.value) == "self" and a.value.attr in ci.methods:
+                    call_path.add(a.value.attr)
+        if not call_path or ("__call__" not in slots and "__call__" not in ci.methods):
+            continue
+        n += 1
+        res.evaluated(f"callable-object:{ci.name}", True)
+        for mname in sorted(call_path):
+            fn = ci.methods[mname]
+            if _all_stores_locked(ci.module, fn):
+                continue
+            stored = {t.attr: a for a in ast.walk(fn) if isinstance(a, (ast.Assign, ast.AugAssign))
+                      for t in (a.targets if isinstance(a, ast.Assign) else [a.target])
+                      if isinstance(t, ast.Attribute) and norm(t.value) == "self"}
+            read = {x.attr for x in ast.walk(fn) if isinstance(x, ast.Attribute) and isinstance(x.ctx, ast.Load) and norm(x.value) == "self"}
+            for attr in sorted(set(stored) & read):
+                st = stored[attr]
+                res.add(Finding("C12", "RACE.callable-consumes-its-own-state", ci.module.rel, f"{ci.name}.{mname}", norm(st)[:100],
+                                f"`{norm(st)[:80]}` in the call path of {ci.name} ({mname}) replaces `self.{attr}`, which the same path reads: "
+                                "the object is cached by the retort and called by every thread, the first call is an unsynchronised "
+                                "multi-step transition -- a second thread that entered the path before the switch reads the consumed "
+                                "attribute (TypeError: 'NoneType' object is not callable out of load / dump)", st.lineno))
+    res.count("CALLABLE.objects", n, 1)
+
+
+def _all_stores_locked(m: ModuleInfo, fn: ast.FunctionDef) -> bool:
+    stores = [a for a in ast.walk(fn) if isinstance(a, (ast.Assign, ast.AugAssign))
+              and any(isinstance(t, ast.Attribute) and norm(t.value) == "self" for t in (a.targets if isinstance(a, ast.Assign) else [a.target]))]
+    return bool(stores) and all(_under_lock(m, a) for a in stores)
